@@ -26,12 +26,16 @@ def make_interp(perm):
         inv[k] = j
     # curve order stub: argsort(distances) == perm
     it.stubs['_distances_from_bounds'] = Stub(lambda bounds, tb, p: inv[:bounds.shape[0]].copy(), '_distances_from_bounds -> arbitrary permutation')
-    it.stubs['_NumbaRtree'] = Stub(lambda b, k, ps, bt: SelfObj('_NumbaRtree', mod, _bounds=b, _keys=k, _page_size=ps, _bounds_tree=bt),
-                                   'jitclass constructor -> interpreted instance')
+    def construct(*args):
+        # the jitclass constructor: an interpreted instance whose fields are set by the class's own __init__
+        obj = SelfObj('_NumbaRtree', mod)
+        it.call(it.func(RT, '_NumbaRtree.__init__'), [obj, *args])
+        return obj
+    it.stubs['_NumbaRtree'] = Stub(construct, 'jitclass constructor -> interpreted instance (its __init__ is interpreted)')
     return it, mod
 
 
-def explore(n, page_size, dims=2, nan_rows=True, perm=None, mode='covers', max_paths=60000, budget_s=None):
+def explore(n, page_size, dims=2, nan_rows=True, perm=None, mode='covers', max_paths=60000, budget_s=None, second_query=False):
     """-> result dict; status holds / violated (+model) / unknown"""
     values.set_mul_mode('exact')
     t0 = time.time()
@@ -44,6 +48,10 @@ def explore(n, page_size, dims=2, nan_rows=True, perm=None, mode='covers', max_p
     q = [z3.Real(f'q{j}') for j in range(2 * dims)]
     allv = [v for r in lo for v in r] + [v for r in hi for v in r] + q + [b for b in nan if b is not False]
     assumptions = [lo[i][d] <= hi[i][d] for i in range(n) for d in range(dims)] + [q[d] <= q[d + dims] for d in range(dims)]
+    # a second query on the same index object that covers every box: results handed out earlier must stay intact
+    q2 = [z3.Real(f'qq{j}') for j in range(2 * dims)]
+    assumptions += [q2[d] <= lo[i][d] for i in range(n) for d in range(dims)] + [q2[d + dims] >= hi[i][d] for i in range(n) for d in range(dims)]
+    assumptions += [q2[d] <= q2[d + dims] for d in range(dims)]
     ex = Explorer(assumptions, max_paths=max_paths)
     it.explorer = ex
     init = it.func(RT, 'HilbertRtree.__init__')
@@ -65,13 +73,19 @@ def explore(n, page_size, dims=2, nan_rows=True, perm=None, mode='covers', max_p
             tree = HilbertRtree.__new__(HilbertRtree)
             it.call(init, [tree, bounds], {'p': 10, 'page_size': page_size})
             qn = tuple(Num(v) for v in q)
+            q2n = tuple(Num(v) for v in q2)
             if mode == 'covers':
                 r = it.call(it.getattr_(tree, 'covers_overlaps', None, True), [qn])
-                cov = [int(x) for x in r[0]]
+                r2 = it.call(it.getattr_(tree, 'covers_overlaps', None, True), [q2n]) if second_query else ([], [])
+                cov = [int(x) for x in r[0]]          # read AFTER the second query
                 ov = [int(x) for x in r[1]]
+                second = sorted(int(x) for x in r2[0]) + sorted(int(x) for x in r2[1])
             else:
-                cov = [int(x) for x in it.call(it.getattr_(tree, 'intersects', None, True), [qn])]
+                r = it.call(it.getattr_(tree, 'intersects', None, True), [qn])
+                r2 = it.call(it.getattr_(tree, 'intersects', None, True), [q2n]) if second_query else []
+                cov = [int(x) for x in r]
                 ov = []
+                second = sorted(int(x) for x in r2)
             tb = it.getattr_(tree, 'total_bounds', None, True)
             empty = it.getattr_(tree, 'empty', None, True)
         except Infeasible:
@@ -89,6 +103,9 @@ def explore(n, page_size, dims=2, nan_rows=True, perm=None, mode='covers', max_p
             else:
                 conds.append(z3.And(z3.BoolVal(cov.count(i) == 1) == overlap, z3.BoolVal(cov.count(i) <= 1)))
         conds.append(z3.BoolVal(all(0 <= x < n for x in cov + ov)))
+        # the covering second query returns exactly the rows with defined boxes
+        for i in range(n if second_query else 0):
+            conds.append(z3.BoolVal(second.count(i) == 1) == (z3.Not(nan[i]) if nan_rows else z3.BoolVal(True)))
         # total_bounds: union of the non-NaN boxes, NaN when there is none
         # `empty`: True without rows, False as soon as one row has defined bounds (all-NaN input: not constrained)
         if n == 0:
@@ -208,13 +225,17 @@ def replay(res, n, page_size, dims, nan_rows, perm, mode):
     for how, pm, p in attempts:
         try:
             t = real_tree(b, page_size, pm, p)
+            live = b[~np.isnan(b).any(axis=1)] if b.size else b
+            qall = tuple([float(np.min(live[:, d])) - 1 for d in range(dims)] + [float(np.max(live[:, d + dims])) + 1 for d in range(dims)]) if len(live) else q
             if mode == 'covers':
                 c, o = t.covers_overlaps(q)
+                t.covers_overlaps(qall)         # results handed out earlier must stay intact
                 got = {'covers': sorted(int(x) for x in c), 'overlaps': sorted(int(x) for x in o)}
                 want = {'covers': cov, 'overlaps': ov}
                 dup = len(set(got['covers'])) != len(got['covers']) or len(set(got['overlaps'])) != len(got['overlaps'])
             else:
                 r = t.intersects(q)
+                t.intersects(qall)
                 got = {'intersects': sorted(int(x) for x in r)}
                 want = {'intersects': inter}
                 dup = len(set(got['intersects'])) != len(got['intersects'])
